@@ -9,7 +9,7 @@ HDR2 = HDR.format(imports="model.C02_model model.C02_run") + "Local Open Scope N
 
 def stage(ctx, n, suffix="", off=0, extra_env=None):
     name = "c02" + suffix
-    inst, err = instrument(ctx)
+    inst, err, warn = instrument(ctx, tolerant=True)
     if err is not None:
         st = core.Stage(name)
         st.errors.append(err)
@@ -20,7 +20,10 @@ def stage(ctx, n, suffix="", off=0, extra_env=None):
     e = {"VERIF_STAGE": name}
     e.update(extra_env or {})
     with instrumented_overlay():
-        return ctx.stage(name, KS, "main", FILES, "TestVerifC02$", n, HDR2, seed_offset=off, shard=60, env=e, timeout=2400, replace=rep)
+        st = ctx.stage(name, KS, "main", FILES, "TestVerifC02$", n, HDR2, seed_offset=off, shard=60, env=e, timeout=2400, replace=rep)
+    if warn:
+        st.errors.append(warn)   # an expected call is missing: broken correspondence whatever the run found
+    return st
 
 
 def run(ctx):
